@@ -103,6 +103,82 @@ def judge_text(mods, text, exp_tokens, exp_nested):
     return None
 
 
+def _replay_part(job):
+    """Replay every k-th forest (fork-pool worker): returns counts,
+    violations, digests of non-trivial cases, a sample for TLC."""
+    k0, step, states, tier, seed = job
+    ddsmt_env.load()
+    mods = ddsmt_env.mods()
+    Node = mods['nodes'].Node
+    tmpfile = os.path.join(common.subscratch('c07'), f'cand{k0}.smt2')
+    rnd = random.Random(seed * 1000 + k0)
+    names = sorted(CLASSES)
+    pairs_all = list(itertools.product(names, names))
+    out = {'n': 0, 'viol': [], 'nontrivial': set(), 'tlc': [], 'samples': []}
+    for nf0 in range(k0, len(states), step):
+        recs, obs = states[nf0]
+        nf = nf0 + 1
+        used = sorted({''.join(t) for t in obs['toks']} - {'LP', 'RP'})
+        if tier == 'quick':
+            third = [p for k, p in enumerate(pairs_all)
+                     if (k + nf) % 3 == 0]
+        else:
+            third = pairs_all
+        if len(used) <= 1:
+            assigns = [{u: c for u in used} for c in names] if used else [{}]
+        else:
+            assigns = [dict(zip(used, p)) for p in third]
+        # padded variants: first label is a symbol of a given length
+        for pad in PADS:
+            for c in (names if len(used) > 1 else ['sym']):
+                if used:
+                    d = {used[0]: 'P%d' % pad}
+                    if len(used) > 1:
+                        d[used[1]] = c
+                    for u in used[2:]:
+                        d[u] = c
+                    assigns.append(d)
+        for asg in assigns:
+            labels = {
+                k: ('p' * int(v[1:]) if v.startswith('P') else CLASSES[v])
+                for k, v in asg.items()
+            }
+            padded = any(v.startswith('P') for v in asg.values())
+            exprs = F.build_nodes(Node, recs, lambda d: labels[''.join(d)])
+            nested = norm_nested(F.nested_of_nodes(exprs))
+            exp_tokens = F.tokens_of_nested(nested)
+            for mode in (['wrap', 'pretty+wrap'] if padded else MODES):
+                out['n'] += 1
+                try:
+                    text = render(mods, mode, exprs, tmpfile)
+                except Exception as e:  # noqa
+                    v = ('render-exception', repr(e))
+                    text = None
+                else:
+                    v = judge_text(mods, text, exp_tokens, nested)
+                if obs['cn'] >= 3:
+                    out['nontrivial'].add(common.digest([exp_tokens, mode]))
+                if v:
+                    cls = '+'.join(sorted(set(
+                        'pad' if x.startswith('P') else x
+                        for x in asg.values())))
+                    out['viol'].append((
+                        f'{mode}:{v[0]}:classes={cls}:forest='
+                        f'{json.dumps(F.nested_of_recs(recs, "".join))}'
+                        f':{json.dumps(asg, sort_keys=True)}',
+                        f'{mode} rendering {text!r} of {nested!r}: '
+                        f'{v[0]} {v[1]}'[:500],
+                        {'forest': recs, 'labels': labels, 'mode': mode}))
+                elif rnd.random() < (0.004 if tier == 'quick' else 0.001):
+                    out['tlc'].append((conform.enc_forest(exprs, with_ids=False),
+                                       text, mode))
+                if out['n'] % 60000 == 1 and len(out['samples']) < 1:
+                    out['samples'].append({'forest': nested, 'mode': mode,
+                                           'rendered': text, 'ok': v is None})
+    out['nontrivial'] = list(out['nontrivial'])
+    return out
+
+
 def main():
     a = common.std_args()
     ddsmt_env.load()
@@ -138,90 +214,36 @@ def main():
         if v:
             print('VIOLATION property=C07 replay=' + a.replay)
         return 1 if v else 0
-    names = sorted(CLASSES)
-    pairs_all = list(itertools.product(names, names))
-    tlc_cases = []
-    n = 0
-    nf = 0
+    states = []
     for cfg, tmo in CONFIGS[a.tier]:
         for st in common.tlc_generate(rep, 'MC_GenForest', cfg, timeout=tmo):
-            recs, obs = st['stack'][0], st['obs']
-            if not recs:
-                continue
-            nf += 1
-            used = sorted({''.join(t) for t in obs['toks']} - {'LP', 'RP'})
-            if a.tier == 'quick':
-                third = [p for k, p in enumerate(pairs_all)
-                         if (k + nf) % 3 == 0]
-            else:
-                third = pairs_all
-            if len(used) <= 1:
-                assigns = [{u: c for u in used} for c in names] if used else [{}]
-            else:
-                assigns = [dict(zip(used, p)) for p in third]
-            # padded variants: first label is a symbol of a given length
-            for pad in PADS:
-                for c in (names if len(used) > 1 else ['sym']):
-                    if used:
-                        d = {used[0]: 'P%d' % pad}
-                        if len(used) > 1:
-                            d[used[1]] = c
-                        for u in used[2:]:
-                            d[u] = c
-                        assigns.append(d)
-            for asg in assigns:
-                labels = {
-                    k: ('p' * int(v[1:]) if v.startswith('P') else CLASSES[v])
-                    for k, v in asg.items()
-                }
-                padded = any(v.startswith('P') for v in asg.values())
-                exprs = F.build_nodes(Node, recs,
-                                      lambda d: labels[''.join(d)])
-                nested = norm_nested(F.nested_of_nodes(exprs))
-                exp_tokens = F.tokens_of_nested(nested)
-                for mode in (['wrap', 'pretty+wrap'] if padded else MODES):
-                    rep.count()
-                    n += 1
-                    try:
-                        text = render(mods, mode, exprs, tmpfile)
-                    except Exception as e:  # noqa
-                        v = ('render-exception', repr(e))
-                        text = None
-                    else:
-                        v = judge_text(mods, text, exp_tokens, nested)
-                    if obs['cn'] >= 3:
-                        rep.nontrivial(
-                            common.digest([exp_tokens, mode]))
-                    if v:
-                        cls = '+'.join(sorted(set(
-                            'pad' if x.startswith('P') else x
-                            for x in asg.values())))
-                        rep.violation(
-                            f'{mode}:{v[0]}:classes={cls}:forest='
-                            f'{json.dumps(F.nested_of_recs(recs, "".join))}'
-                            f':{json.dumps(asg, sort_keys=True)}',
-                            f'{mode} rendering {text!r} of {nested!r}: '
-                            f'{v[0]} {v[1]}'[:500], {
-                                'forest': recs,
-                                'labels': labels,
-                                'mode': mode
-                            })
-                    elif rnd.random() < (0.004 if a.tier == 'quick' else 0.001):
-                        tlc_cases.append((exprs, text, mode))
-                    if n % 60000 == 1:
-                        rep.sample({
-                            'forest': nested,
-                            'mode': mode,
-                            'rendered': text,
-                            'ok': v is None
-                        })
+            if st['stack'][0]:
+                states.append((st['stack'][0], st['obs']))
+    nproc = common.NCPU
+    jobs = [(k, nproc, states, a.tier, common.seed()) for k in range(nproc)]
+    import multiprocessing
+    with multiprocessing.get_context('fork').Pool(nproc) as pool:
+        parts = pool.map(_replay_part, jobs)
+    tlc_cases = []
+    n = 0
+    nf = len(states)
+    for part in parts:
+        n += part['n']
+        rep.count(part['n'])
+        for d in part['nontrivial']:
+            rep.nontrivial(d)
+        for sig, msg, rp in part['viol']:
+            rep.violation(sig, msg, rp)
+        tlc_cases += part['tlc']
+        for smp in part['samples']:
+            rep.sample(smp)
     # code -> spec: TLC judges a sample of real renderings
     cases = []
-    for k, (exprs, text, mode) in enumerate(tlc_cases[:4000]):
+    for k, (encf, text, mode) in enumerate(tlc_cases[:4000]):
         cases.append({
             'cid': k,
             'kind': 'render',
-            'f': conform.enc_forest(exprs, with_ids=False),
+            'f': encf,
             'text': conform.enc_text(text)
         })
     fails = conform.judge(rep, cases, 'c07')
